@@ -1,7 +1,7 @@
 #!/usr/bin/env python3
 """Run the check(s) of the property a seeded change breaks against the tree with the change applied, then undo it.
 
-  tools/run_seeded.py seeded/<id> [--tier quick|thorough] [--worktree] [--demo] [--props C01,C05] [--record]
+  tools/run_seeded.py seeded/<id> [--tier quick|thorough] [--worktree] [--demo] [--props C01,C05] [--record] [--no-restore]
 
 default     : the change is applied to /repo itself (`git -C /repo apply`) and undone straight afterwards
               (`git -C /repo checkout -- .`); nothing is ever committed to /repo.
@@ -103,8 +103,9 @@ def main():
             if "scenic.gram" in open(patch).read():
                 os.utime(gram)
         env = dict(os.environ, SCENIC_REPO="/repo")
-        for p in out["checks"]:
-            sh(os.path.join(ROOT, "check"), p, "--tier", "quick", cwd=ROOT, env=env)
+        if "--no-restore" not in args:
+            for p in out["checks"]:
+                sh(os.path.join(ROOT, "check"), p, "--tier", "quick", cwd=ROOT, env=env)
     caught = [p for p, c in out["checks"].items() if c["exit"] == 1]
     out["caught"] = bool(caught)
     parts = []
@@ -115,10 +116,13 @@ def main():
             parts.append(f"{p}: not caught (exit {c['exit']})")
     out["summary"] = "; ".join(parts)
     if "--record" in args:
+        import fcntl
         path = os.path.join(ROOT, "seeded", "RESULTS.json")
-        res = json.load(open(path)) if os.path.exists(path) else {}
-        res[sid] = out
-        json.dump(res, open(path, "w"), indent=1, sort_keys=True)
+        with open(path + ".lock", "w") as lk:
+            fcntl.flock(lk, fcntl.LOCK_EX)
+            res = json.load(open(path)) if os.path.exists(path) else {}
+            res[sid] = out
+            json.dump(res, open(path, "w"), indent=1, sort_keys=True)
     print("CAUGHT" if caught else "MISSED", "-", out["summary"])
     return 0 if caught else 1
 
